@@ -47,27 +47,14 @@ Proof. vm_compute. repeat split. discriminate. Qed.
      Theorem C03_wrapped : forall req T sr t ind align w, get T sr = Some t -> reduced t -> ws_indent ind = true ->
        (0 < w)%Z -> reduce_model (seen (wrap_chunk ind align w req sr (after_path T sr) t)) = t.
 
-   (for every fitting oracle `req`, the real `_required_space` being the instance `real_req T sr`) is FALSE of
-   the faithful model: finding C03-preserved-newline-offset, refuted below on the model instantiated with the
-   real heuristics.  Under the decidable guard `verbatim_newline false T = false` (the class of the finding)
-   the statement is what the check searches counterexamples for on every run (none outside the class); its
-   proof is reduced here to part (A) - whose relation admits inner variants of texts - plus the text-run lemma
-   below.  PARTIAL: the node-level induction
+   (for every fitting oracle `req`, the real `_required_space` being the instance `real_req T sr`).  It was false of
+   the code before b3af6c0 (finding C03-preserved-newline-offset, fixed); the former witnesses are the regression
+   Example below.  What is proved of it is stated at the end of this file. *)
 
-     Lemma wrap_is_variant : verbatim_newline false T = false -> nft t ->
-       ws_variant t (merge_tree (seen (wrap_chunk ind align w req sr aft t)))
-
-   (invariant: writer offset = 0 only at the start of the stream or after a newline that is legal before the
-   next node) is not proved. *)
-
-Theorem C03_wrapped_refuted : exists t ind align w, reduced t /\ ws_indent ind = true /\ (0 < w)%Z /\
-  reduce_model (wrap_seen ind align w t []) <> t.
-Proof. exact wrapped_refuted. Qed.
-Print Assumptions C03_wrapped_refuted.
-
-(* the witness lies in the class of the finding (the guard is not vacuous in either direction: see the Example) *)
-Theorem C03_wrapped_witness_in_class : verbatim_newline false c03_witness = true.
-Proof. exact (proj1 (proj2 (proj2 c03_witness_facts))). Qed.
+Example C03_wrapped_regression :
+  reduce_model (wrap_seen [SP; SP] false 5%Z c03_witness []) = c03_witness /\
+  reduce_model (wrap_seen [SP; SP] false 5%Z c03_witness_comment []) = c03_witness_comment.
+Proof. split; [exact (proj1 (proj2 (proj2 c03_witness_regression)))|exact (proj2 (proj2 (proj2 (proj2 (proj2 c03_witness_regression)))))]. Qed.
 
 (* text run: normalised text k written over lines separated by any non-empty whitespace run (newline plus the
    indentation of the depth), with whitespace w1 before and w2 after it, reduces to k with exactly the spaces the
@@ -96,7 +83,7 @@ Print Assumptions C03_text_escape_roundtrip.
 
 Example C03_wrapped_example :
   let t := Tag [] [114%N] [] [Text [97; 97; 32; 98; 98; 32]%N; Tag [] [105%N] [] [Text [99; 99]%N]; Text [32; 100; 100; 32; 101; 101]%N] in
-  reduce_model t = t /\ verbatim_newline false t = false /\
+  reduce_model t = t /\
   wrap_str [SP; SP] false 5%Z t [] <> render (plain t) /\
   reduce_model (wrap_seen [SP; SP] false 5%Z t []) = t.
 Proof. exact wrapped_ok_example. Qed.
